@@ -299,24 +299,54 @@ class PythonTranslator(ASTTranslator):
         node.priority = 1
         return node.id
     def postJoinedStr(self, node):
+        return fstring_src(node.values)
+    def postFormattedValue(self, node):
+        return fstring_src([node])  # a compiled f-string with a single field is a bare FormattedValue
+
+
+def fstring_src(values):
+    exprs = []
+    def collect(values):
+        for item in values:
+            if isinstance(item, ast.FormattedValue):
+                exprs.append(item.value.src)
+                if isinstance(item.format_spec, ast.JoinedStr):
+                    collect(item.format_spec.values)
+    collect(values)
+    exprs = ''.join(exprs)
+    quote = '"' if "'" in exprs and '"' not in exprs else "'"
+    def literal(s):
+        r = repr(s.replace('{', '{{').replace('}', '}}'))
+        body = r[1:-1]
+        if r[0] != quote:
+            body = body.replace(quote, '\\' + quote)
+        return body
+    def render(values):
         result = []
-        for item in node.values:
-            if isinstance(item, ast.Constant):
+        for item in values:
+            if isinstance(item, ast.FormattedValue):
+                src = item.value.src
+                if isinstance(item.value, ast.Lambda):
+                    src = '(%s)' % src
+                if src.startswith('{'):
+                    src = ' ' + src  # `{{` would be a literal brace
+                if item.conversion != -1:
+                    src += '!' + chr(item.conversion)
+                spec = item.format_spec
+                if isinstance(spec, ast.JoinedStr):
+                    src += ':' + render(spec.values)
+                elif spec is not None:
+                    src += ':' + literal(spec.value)
+                result.append('{%s}' % src)
+            elif isinstance(item, ast.Constant):
                 assert isinstance(item.value, str)
-                result.append(item.value)
+                result.append(literal(item.value))
             elif not PY38 and isinstance(item, ast.Str):  # Python 3.7
-                result.append(item.s)
-            elif isinstance(item, ast.FormattedValue):
-                if item.conversion == -1:
-                    src = '{%s}' % item.value.src
-                else:
-                    src = '{%s!%s}' % (item.value.src, chr(item.conversion))
-                result.append(src)
+                result.append(literal(item.s))
             else:
                 assert False
-        return "f%r" % ''.join(result)
-    def postFormattedValue(self, node):
-        return node.value.src
+        return ''.join(result)
+    return 'f' + quote + render(values) + quote
 
 
 nonexternalizable_types = (ast.keyword, ast.Starred, ast.Slice, ast.List, ast.Tuple)
